@@ -145,6 +145,13 @@ def Inner.encodeAll (I : Inner) (e : Text) (t : Text) : Option Bytes := (I.enc (
 inductive CErr | lookup | unicode | value | attribute
   deriving DecidableEq, Repr
 
+/-- decode with a known encoding name and rewrite the header -/
+def decodeWith (I : Inner) (enc : Text) (input : Bytes) : Except CErr Text :=
+  if !I.known enc then .error .lookup
+  else match I.decodeAll enc input with
+    | none => .error .unicode
+    | some t => .ok ((fixEncoding t enc true).getD t)
+
 /-- `decode(input, encoding, force)` -/
 def decode (I : Inner) (input : Bytes) (encoding : Option Text) (force : Bool) : Except CErr Text :=
   let d := detectStr input true
@@ -153,10 +160,7 @@ def decode (I : Inner) (input : Bytes) (encoding : Option Text) (force : Bool) :
     | none => d.1.getD utf8
     | some e => if !force && d.2 then d.1.getD utf8 else e
   if (encoding.isNone || !force) && d.1 == some (ofStr "css") then .error .value
-  else if !I.known enc then .error .lookup
-  else match I.decodeAll enc input with
-    | none => .error .unicode
-    | some t => .ok ((fixEncoding t enc true).getD t)
+  else decodeWith I enc input
 
 /-- `encode(input, encoding)` -/
 def encode (I : Inner) (input : Text) (encoding : Option Text) : Except CErr Bytes :=
@@ -188,38 +192,42 @@ structure DecSt (I : Inner) where
 def decInit (I : Inner) (encoding : Option Text) (force : Bool) : DecSt I :=
   { decoder := none, encoding := encoding, force := force, bbuf := [], tbuf := [], headerfixed := false }
 
+/-- header handling once the inner decoder has produced `out` -/
+def decHeader (I : Inner) (st1 : DecSt I) (d' : I.D) (out : Text) (final : Bool) : Text × DecSt I :=
+  if st1.headerfixed then (out, { st1 with decoder := some d' })
+  else
+    match fixEncoding (st1.tbuf ++ out) (st1.encoding.getD utf8) final with
+    | none => ([], { st1 with decoder := some d', tbuf := st1.tbuf ++ out })
+    | some o => (o, { st1 with decoder := some d', tbuf := [], headerfixed := true })
+
+/-- run the inner decoder of a decided state -/
+def decRun (I : Inner) (st1 : DecSt I) (d : I.D) (inp : Bytes) (final : Bool) : Except CErr (Text × DecSt I) :=
+  match I.dec d inp final with
+  | none => .error .unicode
+  | some (out, d') => .ok (decHeader I st1 d' out final)
+
+/-- which encoding an undecided decoder settles on, given what the detector says about the bytes
+seen so far (`ok none` = not yet) -/
+def chooseFrom (encoding : Option Text) (force : Bool) (d : Option Text × Bool) : Except CErr (Option Text) :=
+  if encoding.isNone || !force then
+    match d.1 with
+    | none => .ok none
+    | some e =>
+      if e == ofStr "css" then .error .value
+      else .ok (some (if (d.2 && !force) || encoding.isNone then e else encoding.getD utf8))
+  else .ok (some (encoding.getD utf8))
+
 /-- `IncrementalDecoder.decode(input, final)` -/
 def decStep (I : Inner) (st : DecSt I) (input : Bytes) (final : Bool) : Except CErr (Text × DecSt I) :=
-  -- phase 1: make sure there is an inner decoder
-  let r : Except CErr (Option (DecSt I × I.D × Bytes)) :=
-    match st.decoder with
-    | some d => .ok (some (st, d, input))
-    | none =>
-      let inp := st.bbuf ++ input
-      let needDetect := st.encoding.isNone || !st.force
-      let d := detectStr inp final
-      if needDetect && d.1.isNone then .ok none
-      else if needDetect && d.1 == some (ofStr "css") then .error .value
-      else
-        let enc : Text :=
-          if needDetect then
-            (if (d.2 && !st.force) || st.encoding.isNone then d.1.getD utf8 else st.encoding.getD utf8)
-          else st.encoding.getD utf8
-        if !I.known enc then .error .lookup
-        else .ok (some ({ st with encoding := some enc, bbuf := [] }, I.dinit enc, inp))
-  match r with
-  | .error e => .error e
-  | .ok none => .ok ([], { st with bbuf := st.bbuf ++ input })
-  | .ok (some (st1, d, inp)) =>
-    match I.dec d inp final with
-    | none => .error .unicode
-    | some (out, d') =>
-      if st1.headerfixed then .ok (out, { st1 with decoder := some d' })
-      else
-        let output := st1.tbuf ++ out
-        match fixEncoding output (st1.encoding.getD utf8) final with
-        | none => .ok ([], { st1 with decoder := some d', tbuf := output })
-        | some o => .ok (o, { st1 with decoder := some d', tbuf := [], headerfixed := true })
+  match st.decoder with
+  | some d => decRun I st d input final
+  | none =>
+    match chooseFrom st.encoding st.force (detectStr (st.bbuf ++ input) final) with
+    | .error e => .error e
+    | .ok none => .ok ([], { st with bbuf := st.bbuf ++ input })
+    | .ok (some enc) =>
+      if !I.known enc then .error .lookup
+      else decRun I { st with encoding := some enc, bbuf := [] } (I.dinit enc) (st.bbuf ++ input) final
 
 /-- feed the chunks with `final=False`, then an empty final call (as `iterdecode` does) -/
 def decFeed (I : Inner) : DecSt I → List Bytes → Except CErr (Text × DecSt I)
